@@ -361,6 +361,13 @@ _CLASS_PATCH_ALLOWED = {"onnx_ir.journaling._wrappers:wrap_ir_classes", "onnx_ir
 def rule_r2(ctx):
     repo, ty = ctx.repo, ctx.typer
     fields_by_name: dict[str, list[str]] = {}
+    # a collection's hook is the one its class resolves to: its own, or the one it inherits from the shared base
+    hook_impl: dict[str, str] = {}
+    for hk in _HOOKS:
+        ck_, meth = hk.rsplit(".", 1)
+        impl = repo.lookup(repo.cls(ck_), meth)
+        if isinstance(impl, FuncInfo):
+            hook_impl[hk] = impl.key
     for (ck, fld) in WRITERS:
         repo.cls(ck)  # anchor
         fields_by_name.setdefault(fld, []).append(ck)
@@ -418,7 +425,7 @@ def rule_r2(ctx):
                         continue
             allowed = set()
             for ck in owners:
-                allowed |= WRITERS[(ck, w.field)]
+                allowed |= {hook_impl.get(k_, k_) for k_ in WRITERS[(ck, w.field)]}
                 if (ck, w.field) == (_N, "graph"):
                     # the adoption hook is recognised by what it does, whatever its private name (sa/roles.py)
                     allowed |= {h.key for h in roles.find(repo, "graph-adoption-hook")}
@@ -560,8 +567,20 @@ def rule_r3(ctx):
     gin = repo.cls("onnx_ir._graph_containers:GraphInputs")
     gout = repo.cls("onnx_ir._graph_containers:GraphOutputs")
     for hook in (HOOK_ADD, HOOK_DEL):
-        a, b = gin.methods.get(hook), gout.methods.get(hook)
-        ctx.require(a is not None and b is not None, f"hook {hook} missing on GraphInputs/GraphOutputs")
+        a, b = repo.lookup(gin, hook), repo.lookup(gout, hook)
+        ctx.require(isinstance(a, FuncInfo) and isinstance(b, FuncInfo), f"hook {hook} missing on GraphInputs/GraphOutputs")
+        if a is b:
+            # one shared implementation: the siblings agree by construction, provided the flag it writes is named by a class
+            # attribute that differs between the two collections
+            names = [x.args[1].attr for x in own_nodes(a.node) if isinstance(x, ast.Call) and dotted_of(x.func) == "setattr" and len(x.args) == 3
+                     and isinstance(x.args[1], ast.Attribute) and norm(x.args[1].value) == a.params[0]]
+            flags = [(getattr(gin, "class_attrs", {}).get(nm), getattr(gout, "class_attrs", {}).get(nm)) for nm in names]
+            ok = bool(flags) and all(isinstance(x, ast.Constant) and isinstance(y, ast.Constant) and x.value == "_is_graph_input" and y.value == "_is_graph_output" for x, y in flags)
+            ctx.check("R3", f"GraphInputs.{hook} ~ GraphOutputs.{hook}", ok, a, a.node,
+                      "the hook shared by inputs and outputs does not write the role flag each collection names for itself",
+                      how="shared hook: setattr(value, self.<class attribute>, …) with the attribute '_is_graph_input' on GraphInputs and '_is_graph_output' on GraphOutputs",
+                      construct=f"sibling hooks {hook}")
+            continue
         na, nb = _normalise_hook(a, drop_producer=True), _normalise_hook(b, drop_producer=True)
         ok = na == nb
         ctx.check("R3", f"GraphInputs.{hook} ~ GraphOutputs.{hook}", ok, b, b.node,
@@ -1223,11 +1242,20 @@ def rule_r11(ctx):
     n = 0
     for cname in ("GraphInputs", "GraphOutputs", "GraphInitializers"):
         k = repo.cls(f"onnx_ir._graph_containers:{cname}")
-        f = k.methods.get("_maybe_unset_graph")
-        ctx.require(f is not None and len(f.params) >= 2, f"{cname}._maybe_unset_graph not found")
+        f = repo.lookup(k, "_maybe_unset_graph")  # the collection's own, or the one it inherits
+        ctx.require(isinstance(f, FuncInfo) and len(f.params) >= 2, f"{cname}._maybe_unset_graph not found")
         v = f.params[1]
         own = [a.targets[0].attr for a in own_nodes(f.node) if isinstance(a, ast.Assign) and isinstance(a.targets[0], ast.Attribute) and norm(a.targets[0].value) == v
                and a.targets[0].attr in roles and isinstance(a.value, ast.Constant) and a.value.value is False]
+        # … or `setattr(value, self.<class attribute>, False)` with the flag's name a string constant of this collection's class
+        for c_ in own_nodes(f.node):
+            if isinstance(c_, ast.Call) and dotted_of(c_.func) == "setattr" and len(c_.args) == 3 and norm(c_.args[0]) == v and isinstance(c_.args[2], ast.Constant) \
+                    and c_.args[2].value is False and isinstance(c_.args[1], ast.Attribute) and norm(c_.args[1].value) == f.params[0]:
+                for kk in repo.mro(k):
+                    e_ = getattr(kk, "class_attrs", {}).get(c_.args[1].attr)
+                    if isinstance(e_, ast.Constant) and e_.value in roles:
+                        own.append(e_.value)
+                        break
         ctx.require(len(own) == 1, f"{cname}._maybe_unset_graph: the role flag it clears was not found")
         others = set(roles) - {own[0]}
         clears = [a for a in own_nodes(f.node) if isinstance(a, ast.Assign) and isinstance(a.targets[0], ast.Attribute) and norm(a.targets[0].value) == v
